@@ -21,7 +21,8 @@ type JApi struct {
 func NewJapi(filepath string, oo ...core.Option) (JApi, *jerr.JApiError) {
 	f, err := readPanicFree(filepath)
 	if err != nil {
-		return JApi{}, jerr.NewJApiError(err.Error(), f, 0)
+		// The file couldn't be read, there is no content the error could point to.
+		return JApi{}, jerr.NewJApiError(err.Error(), fs.NewFile(filepath, []byte{}), 0)
 	}
 	return NewJApiFromFile(f, oo...)
 }
